@@ -30,6 +30,7 @@
 #include "nmtools/array/view/sum.hpp"
 #include "nmtools/array/view/flatten.hpp"
 #include "nmtools/array/view/squeeze.hpp"
+#include "nmtools/array/view/concatenate.hpp"
 #include "nmtools/verif.hpp"
 #define NMC_MAIN
 #include "common.hpp"
@@ -78,14 +79,17 @@ static L LL_(std::initializer_list<long> l) { return L(l); }
     X(15, "sum(axis -1, keepdims)", ref_sum(r, -1, true),                           view::sum(a, "-1"_ct, nm::None, nm::None, nm::True)) \
     X(16, "flatten",                ref::reshape(r, LL_({(long)r.size()})),         view::flatten(a)) \
     X(17, "reshape((-1))",          ref::reshape(r, LL_({-1})),                     view::reshape(a, nmtools_tuple{"-1"_ct})) \
-    X(18, "broadcast_to((2,r,c))",  ROpt(),                                          0)
-enum { NOPS = 18 };   // operation 18 (a target that depends on the root shape) is not expressible with constants: not instantiated
+    X(18, "concatenate(expand_dims(a,0),expand_dims(a,0),axis -1)", m_cat3(r), view::concatenate(view::expand_dims(a, 0_ct), view::expand_dims(a, 0_ct), "-1"_ct)) \
+    X(19, "broadcast_to((2,r,c))",  ROpt(),                                          0)
+enum { NOPS = 19 };   // operation 19 (a target that depends on the root shape) is not expressible with constants: not instantiated
+// (operation 18: RANK-3 operands with a negative constant axis - seeded change m11c wrapped the constant axis modulo the rank in unsigned arithmetic, which is only wrong for ranks that do not divide 2^64)
 
 static ROpt m_pad(const RArr& r, const L& w) { size_t d = (size_t)r.dim(); L b(w.begin(), w.begin() + (long)d), a(w.begin() + (long)d, w.end()); return ref::pad(r, b, a, 0); }
 static ROpt m_repeat(const RArr& r, long n, long axis) { L rep{n}; return ref::repeat(r, rep, &axis); }
 static ROpt m_transpose(const RArr& r, const L& ax) { return ref::transpose(r, &ax); }
 static ROpt m_flip(const RArr& r, const L& ax) { return ref::flip(r, &ax); }
 static ROpt m_roll(const RArr& r, long sh, long ax) { L s{sh}, a{ax}; return ref::roll(r, s, &a); }
+static ROpt m_cat3(const RArr& r) { ROpt e = ref::expand_dims(r, L{0}); if (!e) return std::nullopt; long ax = -1; return ref::concatenate(*e, *e, &ax); }
 static ROpt ref_sum(const RArr& r, long axis, bool keep) {
     long d = r.dim(); long ax = axis < 0 ? axis + d : axis; L rs;
     for (long i = 0; i < d; i++) { if (i == ax) { if (keep) rs.push_back(1); } else rs.push_back(r.shape[(size_t)i]); }
@@ -116,7 +120,7 @@ void nmc_enumerate(const nmc::Tier&, const nmc::Sink& emit) {
         RArr r = RArr::iota(s); ROpt m = model_of((int)op, r);
         if (!m || m->size() == 0 || m->size() > 96) continue;
         emit(Case("ctv", {{k}, s, {op}}));   // the view alone: run-time shape, elements, static traits of the view type
-        emit(Case("cte", {{k}, s, {op}}));   // its evaluation: result, result type, CAPACITY hook
+        if (op != 18) emit(Case("cte", {{k}, s, {op}}));   // its evaluation: result, result type, CAPACITY hook
     }
 }
 
@@ -137,7 +141,9 @@ template <class T> static void check_type(const nmc::Obs& o, const char* what, b
     if constexpr (!meta::is_fail_v<decltype(bz)>) { known = true; if ((long)bz < size && err.empty()) err = std::string(what) + ": bounded_size_v = " + std::to_string((long)bz) + " but this object has " + std::to_string(size) + " elements"; }
 }
 
-template <class MV> static Outcome check_view(const MV& mv, const RArr& want, const std::string& where, bool evaluate) {
+// EVAL = false: the evaluation of this view is never instantiated (operation 18: eval of a concatenation of two fixed-dim views is rejected at compile time for some root
+// kinds - a static_assert inside isequal on shapes of different fixed length -, so only the view-level case exists for it)
+template <bool EVAL = true, class MV> static Outcome check_view(const MV& mv, const RArr& want, const std::string& where, bool evaluate) {
     using MV_ = meta::remove_cvref_t<MV>;
     if constexpr (meta::is_fail_v<MV_> || meta::is_same_v<MV_, nm::none_t> || meta::is_same_v<MV_, int>) { nmc::count("skipped_unsupported", 1); return Outcome::ok(false, 3); }
     else {
@@ -158,6 +164,8 @@ template <class MV> static Outcome check_view(const MV& mv, const RArr& want, co
                 if (!err.empty()) return Outcome::bad("wrong", err + where, true, lazy.hash());
                 return Outcome::ok(known && want.size() > 1, lazy.hash() ^ nmc::mix(known ? 29 : 3));
             }
+            if constexpr (!EVAL) return Outcome::bad("wrong", "harness: evaluation case enumerated for a view whose evaluation is not instantiated" + where);
+            else {
             err.clear();   // the view-level verdict belongs to the ctv case of the same node
             g_capacity = 0; g_first_bad.clear();
             const auto ev = na::eval(*pv); const nmc::Obs o = nmc::observe(ev);
@@ -167,6 +175,7 @@ template <class MV> static Outcome check_view(const MV& mv, const RArr& want, co
             if (known) nmc::count("nodes_with_static_knowledge", 1);
             if (!err.empty()) return Outcome::bad("wrong", err + where, true, lazy.hash());
             return Outcome::ok(known && want.size() > 1, lazy.hash() ^ nmc::mix(known ? 17 : 0));
+            }
         }
     }
 }
@@ -183,7 +192,7 @@ template <class A> static Outcome run_kind(const Case& c) {
     ROpt m = model_of(op, r); if (!m) return Outcome::bad("wrong", "harness: the model rejects the operation");
     std::string where = std::string("  [") + KN[c.a[0][0]] + nmc::str(s) + " -> " + op_name(op) + "]";
     switch (op) {
-#define X(I, NAME, MODEL, VIEW) case I: { if constexpr (I < NOPS) { const auto mv = VIEW; return check_view(mv, *m, where, c.op == "cte"); } else return Outcome::ok(false, 1); }
+#define X(I, NAME, MODEL, VIEW) case I: { if constexpr (I < NOPS) { const auto mv = VIEW; return check_view<(I != 18)>(mv, *m, where, c.op == "cte"); } else return Outcome::ok(false, 1); }
     OPS
 #undef X
     }
